@@ -67,6 +67,9 @@ def _canon_aug(node):
     return node
 
 
+_PARSED: dict = {}  # (pattern text, temps) -> canonical pattern (never mutated by matching)
+
+
 class PM:
     def __init__(self, p, fi, fixed: set[str] = frozenset()):
         self.fi = fi
@@ -96,6 +99,19 @@ class PM:
         if isinstance(pat, (ast.AugAssign, ast.Assign)) and isinstance(tgt, (ast.AugAssign, ast.Assign)) and type(pat) is not type(tgt):
             # `x += e` is `x = x + e`
             pat, tgt = _canon_aug(pat), _canon_aug(tgt)
+        if (
+            isinstance(pat, ast.Assign) and isinstance(tgt, ast.Assign) and len(pat.targets) == 1 and len(tgt.targets) == 1
+            and isinstance(pat.targets[0], ast.Tuple) and isinstance(tgt.targets[0], ast.Name)
+            and isinstance(tgt.value, ast.Subscript) and isinstance(tgt.value.slice, ast.Constant) and isinstance(tgt.value.slice.value, int)
+            and 0 <= tgt.value.slice.value < len(pat.targets[0].elts)
+        ):
+            # the code's canonical `x = f()[1]` is the pattern's `a, x = f()` whose `a` the code never reads
+            e2 = dict(env)
+            if self._m(pat.targets[0].elts[tgt.value.slice.value], tgt.targets[0], e2) and self._m(pat.value, tgt.value.value, e2):
+                env.clear()
+                env.update(e2)
+                return True
+            return False
         if type(pat) is not type(tgt):
             return False
         if isinstance(pat, ast.If) and (pat.orelse or tgt.orelse):
@@ -209,6 +225,14 @@ class PM:
         """-> (pattern node | list of statement nodes, is_statement).  Patterns get the same canonical forms as the code."""
         from .canon import canon_pattern as _cp
 
+        hit = _PARSED.get((pat, temps))
+        if hit is not None:
+            return hit
+        out = self._parse0(pat, temps, _cp)
+        _PARSED[(pat, temps)] = out
+        return out
+
+    def _parse0(self, pat, temps, _cp):
         def canon_pattern(n):
             return _cp(n, temps)
 
